@@ -90,6 +90,8 @@ def run_property(prop, cfg, tier, seed, jobs, work, rebaseline=False, only=None)
             extra = sorted(set(units) - set(base_prop[key]))
             if missing or extra:
                 raise Undecided('unit list of bundle %s differs from the committed baseline (missing %s, extra %s): the contracts no longer match the extracted code' % (key, missing, extra))
+        if not units and only:
+            continue
         if not units:
             raise Undecided('bundle %s produced zero obligations' % key)
         for a in D.scan_assumptions(br.text):
@@ -191,7 +193,7 @@ def run_property(prop, cfg, tier, seed, jobs, work, rebaseline=False, only=None)
                 continue
             seen.add(f['obligation'])
             case = f.get('case')
-            if case is None:
+            if case is None and not only:
                 try:
                     case = hunter.hunt(prop, f, tier, seed, work)
                 except Exception as ex:
@@ -253,6 +255,9 @@ def run_property(prop, cfg, tier, seed, jobs, work, rebaseline=False, only=None)
         print('UNDECIDED property=%s reason=%s' % (prop, ' '.join(undecided[0].split())[:300]))
         return 2
     if violations:
+        if os.environ.get('VERIF_VERBOSE'):
+            for f in failures:
+                log(f.get('rendered', ''))
         for rp, found, obl in violations:
             log('FAILED-OBLIGATION ' + obl)
             print('VIOLATION property=%s replay=%s%s' % (prop, rp, '' if found else ' no-failing-input-found'))
